@@ -96,6 +96,10 @@ let () = iter_lines (fun line ->
         pos := !pos + n
       done;
       print_endline ("hist " ^ String.concat "|" (out @ [Printf.sprintf "F %s %s" (dec_of_n size) (hex64 !h)]))
+    end else if kind = "raw" then begin
+      (* raw <hex>: an arbitrary byte image; Load, then ReadSector / ExistSector of all 1024 slots *)
+      let b = bytes_of_hex rest in
+      print_endline ("raw " ^ crash_digest [mkwr N0 b] (-1))
     end else if kind = "crash" then begin
       (* crash <ops> # <opindex>:<k>:<t> ...  : images after k full writes of op #opindex, the next torn after t bytes *)
       match String.split_on_char '#' rest with
